@@ -17,6 +17,9 @@ var strPool = []string{
 	"%", "%d", "50% done", "100%", "%%", "%s %v", "%!d(MISSING)", "\\u00e9", "\\x41", "\\t", "\x01", "\x7f", "\u00a0", "$1", "${x}", ".*", "\\d+", "a|b",
 	// JSON-looking text (raw form) holding characters whose UTF-8 encoding shares a byte with the raw quote ¬ (C2 AC)
 	"café\n", "say \"olá\"", "C:\\José", "日本\\", "{\"a\": 1} ", "\t{\"a\": 1}", " {\"k\": [1, 2]}\n", "{\"price\": \"5 €\"}", "{\"k\": \"本ì\"}", "{\"¬\": \"Ьج\"}", "€", "本",
+	// JSON documents with white space AROUND them (a slurped file): quoted form today; a trimmed raw-form test or a
+	// heredoc-style reader rule would change them
+	"\n{\"a\": 1}\n", "\n{\"a\": 1}", "\r\n{\"a\": 1}", "{\"a\": 1}\n", "\n\n{\"k\":1}", "¬\n", "\n¬",
 }
 
 var keyPool = []string{"a", "b", "c", "k", "key", "x y", "", "A", "ʞa", "ʞb", "ʞc", "ʞk", "ʞkey", "ʞx-y", "1", "%d", "a\tb", "ʞ%s"}
